@@ -56,24 +56,27 @@ def field : P FieldS := do
   let removed ← nat
   let full ← tok
   let ext ← tok
-  pure { name, num, kind, card, isMap, presence, oneof, targets, intro, removed, full, extendee := undash ext }
+  let utf8 ← bool01
+  pure { name, num, kind, card, isMap, presence, oneof, targets, intro, removed, full, extendee := undash ext, utf8 }
 
 def enumP : P EnumS := do
   expect "E"
   let full ← tok
   let closed ← bool01
   let n ← nat
-  let vals ← rep (do let nm ← tok; let v ← int; pure (nm, v)) n
-  pure { full, closed, vals }
+  let vals4 ← rep (do let nm ← tok; let v ← int; let i ← nat; let r ← nat; pure (nm, v, i, r)) n
+  pure { full, closed, vals := vals4.map (fun x => (x.1, x.2.1)),
+         life := (vals4.filter (fun x => x.2.2.1 != 0 || x.2.2.2 != 0)).map (fun x => (x.2.1, x.2.2.1, x.2.2.2)) }
 
 def msgP : P MsgS := do
   expect "M"
   let full ← tok
   let short ← tok
   let parent ← tok
+  let msgSet ← bool01
   let n ← nat
   let fields ← rep field n
-  pure { full, short, parent := undash parent, fields }
+  pure { full, short, parent := undash parent, fields, msgSet }
 
 def schemaP : P Schema := do
   let ne ← nat
@@ -84,7 +87,9 @@ def schemaP : P Schema := do
   let exts ← rep (do expect "X"; field) nx
   expect "K"
   let optIdx ← rep nat 9
-  pure { enums, msgs, exts, optIdx }
+  expect "D"
+  let dynDescriptor ← bool01
+  pure { enums, msgs, exts, optIdx, dynDescriptor }
 
 def hexNat (s : String) : Option Nat :=
   if s.length != 16 then none else
@@ -269,7 +274,7 @@ structure Op where
 def parseOp (ws : List String) : Option Op :=
   match ws with
   | "opt" :: syn :: el :: n :: rest =>
-    if syn != "p2" && syn != "p3" && syn != "e23" then none else
+    if syn != "p2" && syn != "p3" && syn != "e23" && syn != "e23s" then none else
     match parseElem el, n.toNat? with
     | some e, some k =>
       if k > 64 then none else
@@ -334,9 +339,19 @@ end
 
 /-- parser.ResultFromAST rejects `features…` in a file that does not use editions -/
 def featuresOutsideEditions (op : Op) : Bool :=
-  op.syntaxTok != "e23" && op.stmts.any (fun st => !firstIsExt st && firstName st == "features")
+  op.syntaxTok != "e23" && op.syntaxTok != "e23s" && op.stmts.any (fun st => !firstIsExt st && firstName st == "features")
 
-def edition (syn : String) : Nat := if syn == "e23" then 1000 else 0
+def edition (syn : String) : Nat := if syn == "e23" || syn == "e23s" then 1000 else 0
+
+/-- `e23s`: the edition-2023 file itself declares `message UF { int32 a = 1; }` and
+    `extend google.protobuf.FeatureSet { UF uf = 9990; }` — a feature defined in the file that uses it -/
+def withOwnFeature (s : Schema) : Schema :=
+  { s with
+    msgs := s.msgs ++ [⟨"UF", "UF", "", [⟨"a", 1, .i32, .opt, false, true, none, [], 0, 0, "UF.a", "", false, false⟩], false⟩],
+    exts := s.exts ++ [⟨"uf", 9990, .msg s.msgs.length, .opt, false, true, none, [], 0, 0, "uf",
+                        "google.protobuf.FeatureSet", false, true⟩] }
+
+def schemaFor (s : Schema) (syn : String) : Schema := if syn == "e23s" then withOwnFeature s else s
 
 def showRest : List Nat → List Nat → List String
   | [], _ => []
@@ -346,12 +361,12 @@ def showOptBytes : Option (List UInt8) → String
   | none => "-"
   | some b => "x" ++ hexBytes b
 
-def showR (e : Elem) (r : ElemR) : String :=
+def showR (s : Schema) (mi : Nat) (e : Elem) (r : ElemR) : String :=
   match r.fatal with
   | some er => "err " ++ er.toString
   | none =>
     let rest := showRest r.remain []
-    let base := "ok " ++ dumpPM r.opts ++ " r=" ++ (if rest.isEmpty then "-" else ",".intercalate rest) ++
+    let base := "ok " ++ (if serializable s mi r.opts then dumpPM r.opts else "marshal-error") ++ " r=" ++ (if rest.isEmpty then "-" else ",".intercalate rest) ++
       (if e.count > 1 then " n=" ++ toString e.count else "")
     match e.fc with
     | none => base
@@ -367,11 +382,11 @@ def linkOK (s : Schema) (op : Op) : Bool :=
 
 def strictAns (s : Schema) (op : Op) (stmts : List Stmt) : String :=
   if !linkOK s { op with stmts := stmts } then "linkerr unkext"
-  else showR op.elem (runMode s op ⟨false, true⟩ stmts)
+  else showR s (s.optIdx.getD op.elem.optsIdx 0) op.elem (runMode s op ⟨false, true⟩ stmts)
 
 def lenientAns (s : Schema) (op : Op) : String :=
   if !linkOK s op then "linkerr unkext"
-  else showR op.elem (runMode s op ⟨true, true⟩ op.stmts)
+  else showR s (s.optIdx.getD op.elem.optsIdx 0) op.elem (runMode s op ⟨true, true⟩ op.stmts)
 
 def keepNotIn (l : List Stmt) (drop : List Nat) : List Stmt :=
   ((zipIdxFrom l 0).filter (fun p => !drop.contains p.1)).map (·.2)
@@ -392,6 +407,7 @@ def modelAnswer (both : Bool) (st : Option Schema) (line : String) : Option Sche
       match parseOp ws with
       | none => (st, "bad-op")
       | some op =>
+        let s := schemaFor s op.syntaxTok
         if !signedIdentsOK ws 0 || featuresOutsideEditions op || !op.stmts.all (fun st => wfV st.val) then
           (st, if both then "S=parseerr L=parseerr U=parseerr C=-" else "parseerr")
         else
@@ -401,7 +417,7 @@ def modelAnswer (both : Bool) (st : Option Schema) (line : String) : Option Sche
           let c := match u.fatal with
             | some _ => "-"
             | none => strictAns s op (keepNotIn op.stmts u.remain)
-          (st, "S=" ++ sa ++ " L=" ++ lenientAns s op ++ " U=" ++ showR op.elem u ++ " C=" ++ c)
+          (st, "S=" ++ sa ++ " L=" ++ lenientAns s op ++ " U=" ++ showR s (s.optIdx.getD op.elem.optsIdx 0) op.elem u ++ " C=" ++ c)
   | _ => (st, "bad-op")
 
 end OptionsWire
